@@ -189,6 +189,8 @@ pub enum Dev {
 	SplitTwice,
 	MetaMarker(usize, u8),
 	MetaLen(usize, u8),
+	/// two adjacent metadata bytes at once: a type/length marker and the byte after it
+	MetaPair(usize, u8, u8),
 	ByteSet(usize, u8),
 	Truncate(usize),
 	Append(usize, Vec<u8>),
@@ -212,7 +214,7 @@ impl Dev {
 			Dev::PayloadsCode(..) => "payloads-code",
 			Dev::RawLen(..) => "raw-len",
 			Dev::SplitLive(..) | Dev::SplitCode(..) | Dev::SplitFinal(..) | Dev::SplitDeclared(..) | Dev::SplitUnfinished | Dev::SplitTwice => "splitter",
-			Dev::MetaMarker(..) | Dev::MetaLen(..) => "metadata",
+			Dev::MetaMarker(..) | Dev::MetaLen(..) | Dev::MetaPair(..) => "metadata",
 			Dev::ByteSet(..) => "byte",
 			Dev::Truncate(..) => "truncate",
 			Dev::Append(..) => "suffix",
@@ -421,6 +423,14 @@ pub fn apply(doc: &Doc, dev: &Dev, v: (u8, u8)) -> Option<Vec<u8>> {
 			}
 			m[*off] = *b;
 		}
+		Dev::MetaPair(off, b1, b2) => {
+			let m = d.metadata.as_mut()?;
+			if *off + 1 >= m.len() || (m[*off] == *b1 && m[*off + 1] == *b2) {
+				return None;
+			}
+			m[*off] = *b1;
+			m[*off + 1] = *b2;
+		}
 		Dev::ByteSet(off, b) => {
 			let mut out = d.assemble();
 			if *off >= out.len() || out[*off] == *b {
@@ -523,6 +533,13 @@ pub fn other_devs(doc: &Doc, full_bytes: bool) -> Vec<Dev> {
 		for off in 0..m.len() {
 			for b in [b'U', b'S', b'l', b'{', b'}', b'i', 0u8, 0xFF, m[off].wrapping_add(1), 200] {
 				out.push(Dev::MetaMarker(off, b));
+			}
+			// a marker together with the byte after it (a length or value byte with and without the sign bit):
+			// the integer kinds UBJSON knows, as a length type or a value type
+			for b1 in [b'i', b'U', b'I', b'l', b'L', b'S', b'd', b'D', b'C', b'[', b'#', b'$'] {
+				for b2 in [0u8, 0x7F, 0x80, 0xFF] {
+					out.push(Dev::MetaPair(off, b1, b2));
+				}
 			}
 		}
 	}
@@ -709,7 +726,7 @@ fn apply_doc(doc: &Doc, dev: &Dev, v: (u8, u8)) -> Option<Doc> {
 
 pub fn run() {
 	let cx = ctx();
-	cx.note("rule", json!("structure-aware and byte-level deviations of well-formed replays of every framing regime, every single deviation and (thorough) every pair of event-level/header deviations: event delete/duplicate/swap/move/insert (each of the 10 known kinds at every boundary, declared in the table when the version lacks it), frame id / port / follower edits, payload-table edits (sizes, removal, duplication, every value of the length byte, wrong code), every declared raw length 0..actual+8 and 2^31, 2^32-1, splitter fields, metadata markers, table-declared unknown events (6 kinds up to 65,535 bytes) at every boundary including after Game End, every byte offset x {0,0xFF,b^1,b^0x80,b+1} and all 256 values in header/table/first 7 bytes of each event, every truncation, all byte strings of length <=1 (and <=2 with a known first byte; thorough: all) appended after every valid parser state; x {skip_frames} x {compute_hash}; the same inputs through the incremental API driven as in the README; (thorough also: pairs structural x table/splitter edits, pairs of byte edits in header+table, all 3-byte suffixes with a known first byte); read errors of 5 kinds injected at every read call; metadata nested 1..10^6 deep (subprocess). Oracle: returns Ok or Err - no panic, no abort, no read loop without progress, injected non-Interrupted errors surface as Err. Every case is non-trivial (a deviation from a well-formed replay); distinct = distinct mutated input x options"));
+	cx.note("rule", json!("structure-aware and byte-level deviations of well-formed replays of every framing regime, every single deviation and (thorough) every pair of event-level/header deviations: event delete/duplicate/swap/move/insert (each of the 10 known kinds at every boundary, declared in the table when the version lacks it), frame id / port / follower edits, payload-table edits (sizes, removal, duplication, every value of the length byte, wrong code), every declared raw length 0..actual+8 and 2^31, 2^32-1, splitter fields, metadata markers (single bytes, and marker + following byte pairs over the UBJSON type letters x {0,0x7F,0x80,0xFF}), table-declared unknown events (6 kinds up to 65,535 bytes) at every boundary including after Game End, every byte offset x {0,0xFF,b^1,b^0x80,b+1} and all 256 values in header/table/first 7 bytes of each event, every truncation, all byte strings of length <=1 (and <=2 with a known first byte; thorough: all) appended after every valid parser state; x {skip_frames} x {compute_hash}; the same inputs through the incremental API driven as in the README; (thorough also: pairs structural x table/splitter edits, pairs of byte edits in header+table, all 3-byte suffixes with a known first byte); read errors of 5 kinds injected at every read call; metadata nested 1..10^6 deep (subprocess). Oracle: returns Ok or Err - no panic, no abort, no read loop without progress, injected non-Interrupted errors surface as Err. Every case is non-trivial (a deviation from a well-formed replay); distinct = distinct mutated input x options"));
 	cx.note("exhaustive", json!(true));
 	cx.note("assumptions", json!(["'all byte strings' is not enumerable: decided is the <=1 (thorough: <=2) deviation neighbourhood of well-formed replays plus all short suffixes after every parser state", "a hang is a case without result after 60 s; a read loop without progress is detected by the environment reader's call bound (8*len+64 calls)"]));
 	let all_opts = [(false, false), (true, false), (false, true), (true, true)];
